@@ -70,7 +70,7 @@ func (s *sim) tweakCoinbase(blk *types.Block, bad string, height uint32, miner *
 
 // labelCoinbase is the model's verdict on a block's coinbase given the exact
 // fee total of the block's (valid) transactions. "" means it obeys C11.
-func (s *sim) labelCoinbase(blk *types.Block, height uint32, fees *big.Int) string {
+func (s *sim) labelCoinbase(blk *types.Block, height uint32, fees *big.Int, powMode bool) string {
 	cfg := s.node.cfg
 	cb := blk.Transactions[0]
 	if !cb.IsCoinBaseTx() {
@@ -107,7 +107,7 @@ func (s *sim) labelCoinbase(blk *types.Block, height uint32, fees *big.Int) stri
 	// fixed addresses: CR assets and the DPoS v2 reward accumulation address
 	// (both burnt to the destroy address while the chain is in PoW fallback mode)
 	crAddr, dposAddr := *cfg.CRConfiguration.CRAssetsProgramHash, *cfg.DPoSConfiguration.DPoSV2RewardAccumulateProgramHash
-	if s.node.arbiters.IsInPOWMode() {
+	if powMode {
 		crAddr, dposAddr = *cfg.DestroyELAProgramHash, *cfg.DestroyELAProgramHash
 	}
 	if outs[0].ProgramHash != crAddr || outs[2].ProgramHash != dposAddr {
